@@ -17,3 +17,39 @@ package app
 //@ loop 0: decreases len(results) - $i
 //@ loop 1: invariant 0 <= $i && $i <= len(result.CommandResults) && cmdsOk(result.CommandResults, $i)
 //@ loop 1: decreases len(result.CommandResults) - $i
+
+// ---- C12: --clean ----
+
+//@ func holds
+//@ props C12
+//@ ensures result == ancOrSelf(dir, target)
+
+//@ pred Des(s *file.SpokFile, p string) := designated(mapval(s.Tasks), mapval(s.Vars), s.Dir, p)
+
+// clean: what is removed is designated by a declared output (or is the cache directory), is never the
+// spokfile, its directory or anything above it, and on success everything designated has been removed.
+//@ func (*App).clean
+//@ props C12
+//@ modifies removed, fexists, fdata
+//@ ensures [C12,only-designated-paths-removed] forall p string :: {removed[p]} removed[p] && !old(removed)[p] ==> Des(spokfile, p)
+//@ ensures [C12,never-the-spokfile-or-its-directory-or-above] forall p string :: {removed[p]} removed[p] && !old(removed)[p] ==> p != spokfile.Path && !ancOrSelf(p, spokfile.Dir)
+//@ ensures [C12,file-outputs-removed] result == nil ==> forall t string, k int :: {spokfile.Tasks[t].FileOutputs[k]} dom(spokfile.Tasks, t) && 0 <= k && k < len(spokfile.Tasks[t].FileOutputs) ==> removed[absOf(spokfile.Tasks[t].FileOutputs[k])]
+//@ ensures [C12,named-outputs-removed] result == nil ==> forall t string, k int :: {spokfile.Tasks[t].NamedOutputs[k]} dom(spokfile.Tasks, t) && 0 <= k && k < len(spokfile.Tasks[t].NamedOutputs) ==> removed[absOf(spokfile.Vars[spokfile.Tasks[t].NamedOutputs[k]])]
+//@ ensures [C12,glob-outputs-removed] result == nil ==> forall t string, k int, j int :: {globSpec(fsid, spokfile.Dir, spokfile.Tasks[t].GlobOutputs[k])[j]} dom(spokfile.Tasks, t) && 0 <= k && k < len(spokfile.Tasks[t].GlobOutputs) && 0 <= j && j < len(globSpec(fsid, spokfile.Dir, spokfile.Tasks[t].GlobOutputs[k])) ==> removed[globSpec(fsid, spokfile.Dir, spokfile.Tasks[t].GlobOutputs[k])[j]]
+//@ ensures [C12,cache-removed] result == nil ==> removed[join2(spokfile.Dir, ".spok")]
+//@ at call RemoveAll#0: ghost remIdx = store(remIdx, file, $i)
+//@ loop 0: invariant removed == old(removed) && AllDes(mapval(spokfile.Tasks), mapval(spokfile.Vars), spokfile.Dir, toRemove) && SeenBut(mapval(spokfile.Tasks), mapval(spokfile.Vars), spokfile.Dir, $seen, "", false, toRemove)
+//@ loop 1: invariant 0 <= $i && $i <= len(task.FileOutputs) && removed == old(removed) && dom(spokfile.Tasks, $key) && task == spokfile.Tasks[$key]
+//@ loop 1: invariant AllDes(mapval(spokfile.Tasks), mapval(spokfile.Vars), spokfile.Dir, toRemove) && SeenBut(mapval(spokfile.Tasks), mapval(spokfile.Vars), spokfile.Dir, $seen, $key, true, toRemove)
+//@ loop 1: invariant FileDone(task, $i, toRemove)
+//@ loop 2: invariant 0 <= $i && $i <= len(task.NamedOutputs) && removed == old(removed) && dom(spokfile.Tasks, $key) && task == spokfile.Tasks[$key]
+//@ loop 2: invariant AllDes(mapval(spokfile.Tasks), mapval(spokfile.Vars), spokfile.Dir, toRemove) && SeenBut(mapval(spokfile.Tasks), mapval(spokfile.Vars), spokfile.Dir, $seen, $key, true, toRemove)
+//@ loop 2: invariant FileDone(task, len(task.FileOutputs), toRemove) && NamedDone(mapval(spokfile.Vars), task, $i, toRemove)
+//@ loop 3: invariant 0 <= $i && $i <= len(task.GlobOutputs) && removed == old(removed) && dom(spokfile.Tasks, $key) && task == spokfile.Tasks[$key]
+//@ loop 3: invariant AllDes(mapval(spokfile.Tasks), mapval(spokfile.Vars), spokfile.Dir, toRemove) && SeenBut(mapval(spokfile.Tasks), mapval(spokfile.Vars), spokfile.Dir, $seen, $key, true, toRemove)
+//@ loop 3: invariant FileDone(task, len(task.FileOutputs), toRemove) && NamedDone(mapval(spokfile.Vars), task, len(task.NamedOutputs), toRemove) && GlobDone(spokfile.Dir, task, $i, toRemove)
+//@ loop 4: invariant 0 <= $i && $i <= len(toRemove) && removed == old(removed)
+//@ loop 4: invariant forall j int :: {toRemove[j]} 0 <= j && j < $i ==> toRemove[j] != spokfile.Path && !ancOrSelf(toRemove[j], spokfile.Dir)
+//@ loop 5: invariant 0 <= $i && $i <= len(toRemove)
+//@ loop 5: invariant forall j int :: {toRemove[j]} 0 <= j && j < $i ==> removed[toRemove[j]]
+//@ loop 5: invariant forall p string :: {removed[p]} removed[p] && !old(removed)[p] ==> 0 <= remIdx[p] && remIdx[p] < $i && toRemove[remIdx[p]] == p
